@@ -9,8 +9,8 @@ Rng(s) == {s[j] : j \in DOMAIN s}
 
 \* known-finding shapes of a search event, most specific first
 Shape(CT, ev) ==
-  IF InOverProjection(CT, ev.T) THEN "InOverProjection"
-  ELSE IF DependentParam(CT, ev.T) THEN "DependentParam"
+  IF DependentParam(CT, ev.T) THEN "DependentParam"
+  ELSE IF InOverProjection(CT, ev.T) THEN "InOverProjection"
   ELSE IF TextualDiffers(CT, ev.T) \/ \E r \in NonSubtypes(CT, ev.T, Rng(ev.res)) : TextualDiffers(CT, r) THEN "TextualSupertypes"
   ELSE "plain"
 \* known-finding shapes for instantiation:
